@@ -3,12 +3,12 @@ import string as _string
 
 import z3
 
-from .core import CTX, SBool, SInt, _Meta, branch, is_sym, iv, mk, pin, tm, sym_index
+from .core import CTX, SBool, SInt, _Meta, _attr, branch, f_is_sym, is_sym, iv, mk, pin, tm, sym_index
 
 
 # ----------------------------------------------------------------------------- helpers
 def s_is_sym(x):
-    return getattr(x, "_cs", None) is not None
+    return _attr(x, str, "_cs") is not None
 
 
 def sraw(x):
@@ -16,7 +16,7 @@ def sraw(x):
 
 
 def cterms(x):
-    cs = getattr(x, "_cs", None)
+    cs = _attr(x, str, "_cs")
     if cs is not None:
         return cs
     return [z3.IntVal(ord(c)) for c in str.__str__(x)]
@@ -98,7 +98,7 @@ class SStr(str, metaclass=_Meta):
                     return mks(cls, cterms(r), str.__str__(r)) if s_is_sym(r) else (
                         str(r) if cls is SStr else str.__new__(cls, r))
                 ty = type(value)
-                if getattr(value, "_ft", None) is not None or b_is_sym(value) or hasattr(value, "_sym_str"):
+                if f_is_sym(value) or b_is_sym(value):
                     r = ty.__str__(value)
                     if s_is_sym(r):
                         return mks(cls, r._cs, str.__str__(r))
@@ -740,11 +740,11 @@ def utf8_decode(b):
 
 # ----------------------------------------------------------------------------- SBytes
 def b_is_sym(x):
-    return getattr(x, "_bs", None) is not None
+    return _attr(x, bytes, "_bs") is not None
 
 
 def bterms(x):
-    bs = getattr(x, "_bs", None)
+    bs = _attr(x, bytes, "_bs")
     if bs is not None:
         return bs
     return [z3.IntVal(v) for v in bytes.__iter__(x)]
